@@ -138,7 +138,7 @@ def r156(ctx, fx):
         ("super", calls_any("Identifier::is_super"),
          "the rename handler rewrites `super` usages: renaming a scope turns `lda super.foo` into `lda .foo`"),
         ("alias-usages", any(
-            x.get("k") == "closure" and any(True for _ in lib.hir_calls(x, "Identifier::is_super")) and any(
+            x.get("k") == "closure" and any(r.get("k") == "ret" for r in lib.hwalk(x)) and any(
                 n.get("k") == "binary" and n.get("op") in ("Eq", "Ne") and "old_name" in repr(lib.hdesc(n)) for n in lib.hwalk(x))
             for b in bodies if b.d.get("hir") for x in lib.hwalk(b.hir["body"])),
          "the rename handler edits usages without comparing their text with the symbol's name: where an import gave the symbol another name (`.import foo as bar`), "
